@@ -32,12 +32,12 @@ theorem countrate_binned_full (E : Env K) (thr atol rtol : K) (o : Obs K) (area 
 /-- **closed form**: the binned count rate is `area × Σ binflux_i × width_i` (a positive total is
 returned, a non-positive one is an error) -/
 theorem fullCount_closed_form (E : Env K) (x yp e bw : List K) (a : K)
-    (he : binEdges x = .ok e) (hw : binWidths e = .ok bw) (hbw : bw.length = x.length)
+    (hv : validateWavelengths x = .ok ()) (he : binEdges x = .ok e) (hw : binWidths e = .ok bw) (hbw : bw.length = x.length)
     (hlen : x.length = yp.length) :
     fullCount E x yp (some a) =
       if a * (mulFactors yp bw).sum ≤ 0 then .error .synphotError else .ok (a * (mulFactors yp bw).sum) := by
   unfold fullCount
-  rw [convertFlux_count E.P E.T x yp e bw a he hw hbw hlen]
+  rw [convertFlux_count E.P E.T x yp e bw a hv he hw hbw hlen]
   simp only [bind, Except.bind, mulFactors_sum_scale, validateTotalflux]
   split_ifs <;> rfl
 
@@ -50,11 +50,11 @@ theorem fullCount_needs_area (E : Env K) (x0 y0 : K) (xs ys : List K) :
 
 /-- proportional to the collecting area -/
 theorem count_area_linear (E : Env K) (x yp e bw : List K) (a k : K) (hk : 0 < k)
-    (he : binEdges x = .ok e) (hw : binWidths e = .ok bw) (hbw : bw.length = x.length)
+    (hv : validateWavelengths x = .ok ()) (he : binEdges x = .ok e) (hw : binWidths e = .ok bw) (hbw : bw.length = x.length)
     (hlen : x.length = yp.length) (v : K) (h : fullCount E x yp (some a) = .ok v) :
     fullCount E x yp (some (k * a)) = .ok (k * v) := by
-  rw [fullCount_closed_form E x yp e bw a he hw hbw hlen] at h
-  rw [fullCount_closed_form E x yp e bw (k * a) he hw hbw hlen]
+  rw [fullCount_closed_form E x yp e bw a hv he hw hbw hlen] at h
+  rw [fullCount_closed_form E x yp e bw (k * a) hv he hw hbw hlen]
   split_ifs at h with h0
   injection h with h; subst h
   have hpos : 0 < a * (mulFactors yp bw).sum := not_le.mp h0
@@ -64,11 +64,11 @@ theorem count_area_linear (E : Env K) (x yp e bw : List K) (a k : K) (hk : 0 < k
 
 /-- proportional to a scalar multiplying the flux -/
 theorem count_flux_linear (E : Env K) (x yp e bw : List K) (a k : K) (hk : 0 < k)
-    (he : binEdges x = .ok e) (hw : binWidths e = .ok bw) (hbw : bw.length = x.length)
+    (hv : validateWavelengths x = .ok ()) (he : binEdges x = .ok e) (hw : binWidths e = .ok bw) (hbw : bw.length = x.length)
     (hlen : x.length = yp.length) (v : K) (h : fullCount E x yp (some a) = .ok v) :
     fullCount E x (yp.map (k * ·)) (some a) = .ok (k * v) := by
-  rw [fullCount_closed_form E x yp e bw a he hw hbw hlen] at h
-  rw [fullCount_closed_form E x (yp.map (k * ·)) e bw a he hw hbw (by simpa using hlen)]
+  rw [fullCount_closed_form E x yp e bw a hv he hw hbw hlen] at h
+  rw [fullCount_closed_form E x (yp.map (k * ·)) e bw a hv he hw hbw (by simpa using hlen)]
   split_ifs at h with h0
   injection h with h; subst h
   have hpos : 0 < a * (mulFactors yp bw).sum := not_le.mp h0
